@@ -1431,6 +1431,8 @@ func (c *Conn) sendPending(id uint32) error {
 
 		c.sendLck.Unlock()
 
+		verifPoint("cli.send.debited")
+
 		if n == 0 && !end {
 			return nil
 		}
